@@ -5,8 +5,12 @@ package sctp
 // ordinal) of DATA / SACK / RECONFIG packets.
 
 import (
+	"bufio"
+	"encoding/json"
 	"fmt"
 	"math/rand"
+	"os"
+	"strings"
 	"testing"
 	"time"
 )
@@ -230,5 +234,258 @@ func init() {
 				}
 			}
 		}
+	}
+}
+
+// ---------------------------------------------------------------------------------------------
+// reco-replay: behaviours of spec/Reconfig.tla (TLC -simulate / BFS, history variable `ops`) replayed
+// on real associations. Packets are matched by content: RE-CONFIG packets by (sender, request /
+// response, ordinal of that kind from that sender), DATA in order; SACKs are not part of the model and
+// are delivered at once. A behaviour the real code cannot follow (a packet the model expects is not
+// there) ends as drift, which is not a verdict. Verdicts come from ObsTrace's C14 / delivery monitors
+// on the recorded trace.
+
+type vfRcOp struct {
+	Op   string `json:"op"`
+	E    int    `json:"e"`
+	From int    `json:"from"`
+	K    string `json:"k"`
+	N    int    `json:"n"`
+}
+
+func vfRcKind(raw []byte) string {
+	d := vfDecodePacket(raw)
+	if len(d.Chunks) == 0 {
+		return "other"
+	}
+	kind := "other"
+	for _, c := range d.Chunks {
+		switch c.Typ {
+		case 0, 64:
+			return "data"
+		case 3:
+			if kind == "other" {
+				kind = "sack"
+			}
+		case 130:
+			m, _ := vfChunkJSON(c, 0, 0, nil)
+			ps, _ := m["params"].([]any)
+			for _, p := range ps {
+				if pm, ok := p.(map[string]any); ok {
+					if pm["p"] == "req" {
+						return "req"
+					}
+					if pm["p"] == "resp" {
+						kind = "resp"
+					}
+				}
+			}
+		}
+	}
+	return kind
+}
+
+func init() {
+	vfModes["reco-replay"] = func(t *testing.T) {
+		shard, nshards := vfEnvInt("VF_SHARD", 0), vfEnvInt("VF_NSHARDS", 1)
+		f, err := os.Open(os.Getenv("VF_IN"))
+		if err != nil {
+			t.Fatal(err)
+		}
+		defer f.Close()
+		tr, err := vfNewTrace(vfOut(fmt.Sprintf("rr-%d.ndjson", shard)))
+		if err != nil {
+			t.Fatal(err)
+		}
+		defer tr.close()
+		sc := bufio.NewScanner(f)
+		sc.Buffer(make([]byte, 1<<20), 1<<26)
+		k, drifts, done := 0, 0, 0
+		for sc.Scan() {
+			line := strings.TrimSpace(sc.Text())
+			if line == "" {
+				continue
+			}
+			k++
+			if k%nshards != shard {
+				continue
+			}
+			var ops []vfRcOp
+			if err := json.Unmarshal([]byte(line), &ops); err != nil {
+				t.Fatalf("bad behaviour: %v", err)
+			}
+			label := fmt.Sprintf("reco-replay-il%v#%d", k%2 == 0, k)
+			hung := vfBubble(t, label, func() {
+				w := vfNewWorld(vfWorldOpt{Label: label, Trace: tr, A: vfEpCfg{InitTSN: uint32(k * 7919), Tag: 0xA9, IL: k%2 == 0}, B: vfEpCfg{InitTSN: uint32(0) - uint32(k%5), Tag: 0xB9, IL: k%2 == 0, Server: true}})
+				if !w.vfConnect() {
+					w.finish(true)
+					return
+				}
+				ord := map[int]int{}            // pid -> ordinal
+				cnt := map[[2]any]int{}         // (from, kind) -> packets seen
+				scan := func() {
+					for _, p := range w.pending(-1) {
+						if _, ok := ord[p.id]; ok {
+							continue
+						}
+						kd := vfRcKind(p.raw)
+						cnt[[2]any{p.from, kd}]++
+						ord[p.id] = cnt[[2]any{p.from, kd}]
+					}
+				}
+				auto := func() {
+					for i := 0; i < 50; i++ {
+						scan()
+						moved := false
+						for _, p := range w.pending(-1) {
+							if kd := vfRcKind(p.raw); kd == "sack" || kd == "other" {
+								w.deliver(p.id)
+								moved = true
+							}
+						}
+						if !moved {
+							return
+						}
+					}
+				}
+				find := func(from int, kd string, n int) *vfPkt {
+					scan()
+					for _, p := range w.pending(from) {
+						if vfRcKind(p.raw) == kd && (n == 0 || ord[p.id] == n) {
+							return p
+						}
+					}
+					return nil
+				}
+				eofB := false
+				readB := func() {
+					for i := 0; i < 20 && w.readable(1, 1); i++ {
+						_, err, did := w.read(1, 1, 1<<16)
+						if !did {
+							break
+						}
+						if err != nil {
+							eofB = true
+							break
+						}
+					}
+				}
+				// the object the reader holds is read to its end (data, then EOF) BEFORE a newer incarnation of
+				// the identifier is accepted: an inbound reset sets EOF on the old object before a new one can exist
+				readA := func() {
+					for i := 0; i < 20 && w.readable(0, 1); i++ {
+						if _, err, did := w.read(0, 1, 1<<16); !did || err != nil {
+							break
+						}
+					}
+				}
+				drainB := func() {
+					readA()
+					readB()
+					if w.accept(1) > 0 {
+						readB()
+					}
+				}
+				nw := 0
+				drift := ""
+			loop:
+				for _, op := range ops {
+					auto()
+					drainB()
+					switch op.Op {
+					case "open":
+						if w.open(0, 1, 51) == nil {
+							drift = "open refused"
+							break loop
+						}
+					case "write":
+						nw++
+						w.write(0, 1, 40+nw, 51)
+					case "close":
+						if op.E == 1 {
+							eofB = false
+							drainB()
+							if !eofB || w.stream(1, 1) == nil || w.stream(1, 1).State() != StreamStateOpen {
+								drift = "reader has no EOF to react to"
+								break loop
+							}
+						}
+						if w.stream(op.E, 1) == nil {
+							drift = "no stream to close"
+							break loop
+						}
+						w.closeStream(op.E, 1)
+					case "data":
+						p := find(0, "data", 0)
+						if p == nil {
+							drift = "no DATA in flight"
+							break loop
+						}
+						w.deliver(p.id)
+						drainB()
+					case "deliver", "drop":
+						p := find(op.From, op.K, op.N)
+						if p == nil {
+							drift = fmt.Sprintf("no %s #%d from %d", op.K, op.N, op.From)
+							break loop
+						}
+						if op.Op == "drop" {
+							w.drop(p.id)
+						} else {
+							w.deliver(p.id)
+						}
+					case "fire":
+						before := cnt[[2]any{op.E, "req"}]
+						for i := 0; i < 40 && cnt[[2]any{op.E, "req"}] == before; i++ {
+							w.tick(3 * time.Second)
+							auto()
+						}
+						if cnt[[2]any{op.E, "req"}] == before {
+							drift = "reconfig timer did not re-send"
+							break loop
+						}
+					}
+				}
+				if drift != "" {
+					drifts++
+					w.tr.emit(map[string]any{"ev": "note", "what": "replay-drift: " + drift, "t": w.now()})
+				} else {
+					done++
+				}
+				// epilogue: a stream that is still open is written once more (a renumbered or reset incarnation
+				// shows as a wrong sequence number on the wire and a message that is never delivered)
+				if drift == "" {
+					auto()
+					drainB()
+					if st := w.stream(0, 1); st != nil && st.State() == StreamStateOpen {
+						a := w.ep[0].a
+						a.lock.RLock()
+						_, registered := a.streams[1]
+						a.lock.RUnlock()
+						if registered {
+							nw++
+							w.write(0, 1, 40+nw, 51)
+						}
+					}
+				}
+				// whatever happened: let everything settle, read everything, judge the history
+				for i := 0; i < 30; i++ {
+					drainB()
+					w.heal(5 * time.Second)
+					if w.idle() {
+						break
+					}
+				}
+				drainB()
+				w.snapAll = true
+				w.quiesce()
+				w.tr.emit(map[string]any{"ev": "expect", "drained": true, "t": w.now(), "reset": true})
+				w.finish(true)
+			})
+			if hung {
+				t.Fatalf("scenario %s hung", label)
+			}
+		}
+		vfWriteJSON(vfOut(fmt.Sprintf("rr-%d.json", shard)), map[string]any{"behaviours": k, "followed": done, "drift": drifts})
 	}
 }
